@@ -489,7 +489,8 @@ def record_test_suite():
     import sys
     import tempfile
     here = os.path.dirname(os.path.dirname(os.path.abspath(__file__)))
-    repo = os.environ.get("MOFUN_REPO", "/repo")
+    import mofun
+    repo = os.path.dirname(os.path.dirname(os.path.abspath(mofun.__file__)))     # the tree the harness itself runs against
     tmp = tempfile.mkdtemp(prefix="mofun-rec-")
     try:
         dst = os.path.join(tmp, "repo")
